@@ -88,6 +88,9 @@ pub enum Stdin {
     /// in read(0) (seen in /proc/<pid>/syscall; after 2 s at the latest), then closed: what a person
     /// typing or a slow producer looks like to the child
     Pieces(Vec<Vec<u8>>),
+    /// the controlling pseudo-terminal itself (isatty(stdin) is true for the child): an interactive
+    /// session; data then has to come from a file argument
+    Tty,
 }
 
 #[derive(Clone, Debug)]
@@ -146,11 +149,12 @@ pub fn tty_lines(inv: &Invocation) -> Option<Vec<u8>> {
     let is_change = inv.args.iter().any(|a| a == b"change-pass");
     let lines: Vec<String> = if is_change {
         let np = get("KESTREL_NEW_PASSWORD")?;
-        vec![pw, np.clone(), np]
+        vec![pw, np.clone(), np.clone(), np.clone(), np]
     } else {
-        // one prompt (unlock, decrypt) or a prompt and its confirmation (generate, password encrypt):
-        // a line that is never read stays in the terminal's queue and is discarded with it
-        vec![pw.clone(), pw]
+        // one prompt (unlock, decrypt) or a prompt and its confirmation (generate, password encrypt);
+        // two more for a tool that asks again. A line that is never read stays in the terminal's queue
+        // and is discarded with it
+        vec![pw.clone(), pw.clone(), pw.clone(), pw]
     };
     let mut out = vec![];
     for l in &lines {
@@ -254,7 +258,9 @@ pub fn run(sb: &Sandbox, inv: &Invocation) -> Finished {
     // the controlling terminal: the passwords are typed before the child starts (canonical mode keeps
     // them as separate lines in the input queue; echo is off so nothing is reflected to the master)
     let mut ctty: Option<(std::fs::File, std::fs::File)> = None;
-    if let Some(lines) = &typed {
+    let no_lines: Vec<u8> = vec![];
+    if typed.is_some() || matches!(inv.stdin, Stdin::Tty) {
+        let lines = typed.as_ref().unwrap_or(&no_lines);
         use std::os::unix::io::FromRawFd;
         let (mut m, mut sl) = (0i32, 0i32);
         let rc = unsafe { libc::openpty(&mut m, &mut sl, std::ptr::null_mut(), std::ptr::null_mut(), std::ptr::null_mut()) };
@@ -322,6 +328,12 @@ pub fn run(sb: &Sandbox, inv: &Invocation) -> Finished {
         Stdin::Pipe(_) | Stdin::Pieces(_) => {
             cmd.stdin(Stdio::piped());
         }
+        Stdin::Tty => match ctty.as_ref().and_then(|(_, sl)| sl.try_clone().ok()) {
+            Some(sl) => {
+                cmd.stdin(Stdio::from(sl));
+            }
+            None => panic!("harness: no pseudo-terminal for stdin"),
+        },
     }
     let mut closed_pipe_keep: Option<std::fs::File> = None;
     let mut pty_master: Option<std::fs::File> = None;
